@@ -78,6 +78,7 @@ func (r *Rec) check(cond bool, rule, construct, pos, okDetail, failDetail string
 	}
 	return cond
 }
+
 // verdict: bad == "" discharges; a complaint that starts with "skip:" records that the rule
 // could not be evaluated on this shape of code; anything else is a violation.
 func (r *Rec) verdict(rule, construct, pos, okDetail, bad string) bool {
@@ -263,16 +264,16 @@ func writeEvidence(dir string, p *propInfo, r *Rec, tier string, seed int64, wal
 			"go/types, go/ssa, go/cfg, go/packages of golang.org/x/tools v0.29.0 (vendored)",
 			"the rule tables and specs written in /verif/checker (see DESIGN.md section 5)",
 		},
-		"engines":       p.Engines,
-		"per_rule":      perRule,
-		"analysed":      r.Analysed,
-		"samples":       samples,
-		"notes":         r.Notes,
-		"exhaustive":    true,
-		"repo_root":     c.Root,
-		"packages":      c.PkgPaths(),
-		"files_loaded":  c.NFiles,
-		"funcs_loaded":  c.NFuncs,
+		"engines":         p.Engines,
+		"per_rule":        perRule,
+		"analysed":        r.Analysed,
+		"samples":         samples,
+		"notes":           r.Notes,
+		"exhaustive":      true,
+		"repo_root":       c.Root,
+		"packages":        c.PkgPaths(),
+		"files_loaded":    c.NFiles,
+		"funcs_loaded":    c.NFuncs,
 		"all_obligations": r.Obls,
 	}
 	for k, v := range extra {
